@@ -1,12 +1,12 @@
 CONSTANTS Urls <- UrlsC
           Texts <- TextsC
-          Cfgs <- OneCfg
+          Cfgs <- CfgsC
           RebuildOnlyIfChanged = FALSE
-          FirstOfBatch = FALSE
+          FirstOfBatch = TRUE
           IdentsAccumulate = FALSE
-          ForgetIdentRecord = FALSE
+          ForgetIdentRecord = TRUE
           ConfigRebuilds = TRUE
-          MaxMsgs = 3
+          MaxMsgs = 4
           MaxInFlight = 1
           VersionGuard = FALSE
           RefreshFromMemory = TRUE
